@@ -253,6 +253,8 @@ def run_property(prop_id, tier, seed, replay=None, jobs=None, out=sys.stdout,
         for name in sorted(os.listdir(rdir)):
             if not name.endswith('.json'):
                 continue
+            if name.startswith('seeded-') and os.environ.get('VERIF_SKIP_SEEDED_REPLAYS') == '1':
+                continue        # to measure what the generated search finds by itself
             path = os.path.join(rdir, name)
             try:
                 case, res = evaluate_file(prop, path)
